@@ -34,8 +34,11 @@ TotalV == {Num(3), NullV, O1("value", Num(2)), O2("value", Num(2), "relation", K
           \cup (IF TreeLevel > 1 THEN {Obj(<<>>), Arr(<<Num(1)>>), O1("value", O1("value", Num(1))), Known("value"), O1("value", NullV)} ELSE {})
 ListV == {Arr(<<>>), Arr(<<Num(1)>>), Arr(<<Arr(<<>>)>>), Arr(<<Obj(<<>>)>>), Obj(<<>>)}
          \cup (IF TreeLevel > 1 THEN {Arr(<<O1("took", Num(1))>>), Arr(<<Num(1), S1>>), NullV, Arr(<<NullV>>)} ELSE {})
-AkV == {Obj(<<>>), O1("a", S1), O2("a", S1, "b", Num(2)), O1("a", O1("b", Num(1))), Num(1), O2("a", NullV, "b", Num(1))}
-       \cup (IF TreeLevel > 1 THEN {O1("a", Arr(<<Num(1)>>)), Arr(<<>>), O2("b", TrueV, "a", S1), O1("took", Num(1))} ELSE {})
+(* member names of a requested flat object may contain dots (ijson does not escape them in the prefix): `geo.src`, and two  *)
+(* names with the same last component                                                                                     *)
+AkV == {Obj(<<>>), O1("geo.src", S1), O2("source.ip", S1, "destination.ip", Num(2)), O1("a", O1("b", Num(1))), Num(1),
+        O2("a", NullV, "b", Num(1))}
+       \cup (IF TreeLevel > 1 THEN {O2("a", S1, "b", Num(2)), O2("a.b", Num(1), "b", Num(2)), O1("a", Arr(<<Num(1)>>)), Arr(<<>>), O2("b", TrueV, "a", S1), O1("took", Num(1))} ELSE {})
 UnderHits == [k \in {"total", "hits", "ak", "x"} |->
                 CASE k = "total" -> TotalV [] k = "hits" -> ListV [] k = "ak" -> AkV [] k = "x" -> {Num(1)}]
 HitsV == {Num(1), Arr(<<>>)} \cup Objs(MaxHitsKeys, UnderHits)
@@ -93,7 +96,9 @@ PagedArgs == {<<FALSE, Absent, Absent>>, <<TRUE, Absent, S3>>, <<TRUE, Absent, A
 SaInputs == {[kind |-> "sa", tree |-> SearchTree(hs, tot, hf, a[3]), lex |-> [brackets |-> {"s:b"}, spc |-> spc], pit |-> a[1], ht |-> a[2]] :
                 hs \in HitSeqs, tot \in TotalForms, hf \in BOOLEAN, spc \in BOOLEAN, a \in PagedArgs}
 
-AfterV == {Absent, Obj(<<>>), O1("a", S1), O2("a", S1, "b", Num(2)), O2("b", TrueV, "a", SB), O2("a", NullV, "b", Num(1))}
+AfterV == {Absent, Obj(<<>>), O1("a", S1), O2("a", S1, "b", Num(2)), O2("b", TrueV, "a", SB), O2("a", NullV, "b", Num(1)),
+           O1("geo.src", S1), O2("source.ip", S1, "destination.ip", S2),
+           Obj(<<KV("geo.src", S1), KV("geo.dest", Num(2)), KV("a.b.c", NullV)>>)}
 CompTree(path, after, aggFirst, pitId) ==
     LET c == Obj(Opt("after_key", after) \o <<KV("buckets", Arr(<<>>))>>)
         a == KV("aggregations", IF Len(path) = 1 THEN O1(path[1], c) ELSE O1(path[1], O2("doc_count", Num(1), path[2], c)))
